@@ -75,6 +75,8 @@ def numeric_catalogue(tier, rng):
         for (a, b) in pairs:
             for (lk, uk) in kinds:
                 n += 1
+                if a == b and (lk, uk) == ("gt", "lt"):
+                    continue   # refused by the macro at compile time (exclusive bounds that exclude each other: C08's subject)
                 d = NumDecl(ty, [lk, uk], san="fn", bounds={"lo": str(a), "hi": str(b)}, modname="%s_lit%d_%s_%s" % (ty, n, lk, uk))
                 d.can_ok = (a + (1 if lk == "gt" else 0)) <= (b - (1 if uk == "lt" else 0))
                 decls.append(d)
@@ -86,6 +88,8 @@ def numeric_catalogue(tier, rng):
             a2, b2 = a.replace("f32", ty), b.replace("f32", ty)
             for (lk, uk) in ([("gt", "lt"), ("ge", "le"), ("gt", "le"), ("ge", "lt")] if tier == "thorough" else [("gt", "le"), ("ge", "lt")]):
                 n += 1
+                if a in ("-0.0", "0.0") and (lk, uk) == ("gt", "lt"):
+                    continue   # `greater = 0.0, less = -0.0`: refused by the macro at compile time
                 # NB: `f32::INFINITY` is an expression spelling, `-1` an integer literal for a float bound
                 d = NumDecl(ty, [lk, uk, "finite"] if n % 2 else [lk, uk], san="fn", bounds={"lo": a2, "hi": b2}, modname="%s_lit%d_%s_%s" % (ty, n, lk, uk))
                 d.can_ok = not (a in ("-0.0", "0.0") and (lk, uk) != ("ge", "le"))
